@@ -24,9 +24,13 @@ VARIABLES l,        \* cursor
           inbox,    \* deliver events since the last iteration
           cmds,     \* call events since the last iteration
           ipint,    \* interface-check interval in force (ms, 0 = disabled)
+          cand,     \* original fnk -> the names conflict resolution may move to (x, x (2), x (3) .. / h, h-2, h-3 ..)
+          lost,     \* name keys for which a conflicting response arrived before they were announced: must not be taken (C08)
+          ncseen,   \* new names reported by NameChange events
+          compet,   \* name key -> time of the last competing probe delivered while we were probing it
           viol, hits,
           streak    \* consecutive idle iterations whose requested wake-up is at most 1 ms ahead (C12.nospin)
-vars == <<streak, l, scen, myhost, ifs, reg, ann, probes, noisy, owed, inbox, cmds, ipint, viol, hits>>
+vars == <<streak, l, scen, myhost, ifs, reg, ann, probes, noisy, owed, inbox, cmds, ipint, cand, lost, ncseen, compet, viol, hits>>
 
 Ev == Rec[l]
 T  == Ev.t
@@ -39,10 +43,12 @@ SeqOf(f, k) == IF k \in Dom(f) THEN f[k] ELSE <<>>
 Last(s) == s[Len(s)]
 
 (* --------------------------- registrations ----------------------------- *)
-MkReg(a) == [fn |-> a.fn, fnk |-> a.fnk, ty |-> a.ty, tyk |-> a.tyk, sub |-> a.sub, subk |-> a.subk,
+(* fnk: lower-cased UNESCAPED spelling (as names appear in packets); fn: RFC 6763-escaped spelling *)
+MkReg(a) == [fn |-> a.fnl.s, fnk |-> a.fnl.k, ty |-> a.ty, tyk |-> a.tyk, sub |-> a.sub, subk |-> a.subk,
              host |-> a.host, hostk |-> a.hostk, port |-> a.port, addrs |-> a.addrs, auto |-> a.auto,
              probe |-> a.probe, txtx |-> a.txtx, hostttl |-> a.hostttl, otherttl |-> a.otherttl,
-             srvrk |-> a.srvrk, at |-> T]
+             srvrk |-> a.srvrk, srvpre |-> a.srvpre, orig |-> a.fnk, at |-> T,
+             fnl |-> a.fnk, dotted |-> a.fnl.s # a.fnl.u]      \* a dot or backslash inside a label of the instance name
 SameData(g, h) == [g EXCEPT !.at = 0] = [h EXCEPT !.at = 0]
 
 IfIdxs == {x.idx : x \in {y \in Range(ifs) : y.up}}
@@ -86,8 +92,9 @@ ApplyCmd(s, c) ==
   CASE c.fn = "register" /\ c.res = "ok" ->
          LET g == MkReg(c.args)
              same == g.fnk \in Dom(s.reg) /\ SameData(s.reg[g.fnk], g)
+             renamedKeys == {k \in Dom(s.reg) : s.reg[k].orig = g.orig /\ k # g.fnk}
              usable == {idx \in IfIdxs : Link(g, ifs, idx) # {}}
-         IN [s EXCEPT !.reg = Put(s.reg, g.fnk, g),
+         IN [s EXCEPT !.reg = Put(Del(s.reg, renamedKeys), g.fnk, g),
                       \* a re-registration with new data: answers optional until re-announced
                       !.ann = IF same THEN s.ann
                               ELSE [k \in Dom(s.ann) |-> IF k[1] = g.fnk THEN [s.ann[k] EXCEPT !.st = "limbo"] ELSE s.ann[k]],
@@ -95,8 +102,9 @@ ApplyCmd(s, c) ==
                                \cup {[kind |-> "announce", fnk |-> g.fnk, idx |-> idx, v4 |-> TRUE,
                                       due |-> T + (IF g.probe THEN 1000 ELSE 0)] : idx \in usable}]
     [] c.fn = "unregister" /\ c.res = "ok" ->
-         LET k == c.args.fnk
-             known == k \in Dom(s.reg)
+         LET cur == {x \in Dom(s.reg) : s.reg[x].orig = c.args.fnk}
+             k == IF cur = {} THEN c.args.fnk ELSE CHOOSE x \in cur : TRUE      \* the name the service currently goes by
+             known == cur # {}
              rep == ReplyOf(c.id)
          IN [s EXCEPT !.v = s.v \cup V("C09.status", rep = (IF known THEN "OK" ELSE "NotFound"), <<k, rep>>),
                       !.byes = s.byes \cup (IF known THEN GoodbyesFor(s.reg[k], s.ann) ELSE {}),
@@ -150,7 +158,11 @@ CheckQuery(Q) ==
                  \cup UNION {SrvAdditionals(g, ifs, idx, Q.v4) : g \in Limbo(idx) \ srvAnswered}
       okAdd   == UNION {PtrAdditionals(g, ifs, idx, Q.v4) : g \in ptrAnswered}
                  \cup UNION {SrvAdditionals(g, ifs, idx, Q.v4) : g \in srvAnswered}
-  IN V("C06.exact-missing", fix(must) \subseteq actAns, <<"missing", fix(must) \ actAns>>)
+      missing == fix(must) \ actAns
+      dottedOnly == missing # {} /\ \A r \in missing : \E g \in Limbo(idx) : g.dotted /\ r.k = g.fnk
+  IN V("C06.exact-missing", missing = {},
+       <<IF dottedOnly THEN "question for an instance name with a dot inside a label is never matched (wire names are compared unescaped with escaped registered names)"
+         ELSE "missing", missing>>)
      \cup V("C06.exact-extra", actAns \subseteq fix(may), <<"extra", actAns \ fix(may)>>)
      \cup V("C06.silent", (may = {}) => (mine = {}), <<"response without matching announced service">>)
      \cup V("C06.additionals", fix(reqAdd) \subseteq (actAdd \cup actAns), <<"missing additional", fix(reqAdd) \ (actAdd \cup actAns)>>)
@@ -189,12 +201,67 @@ Iter ==
   /\ streak' = IF IdleNow THEN streak + 1 ELSE 0
   /\ \E s \in {Fold([reg |-> reg, ann |-> ann, probes |-> probes, owed |-> owed, v |-> {}, byes |-> {},
                      unreg |-> {}, down |-> FALSE, ipint |-> ipint], cmds)} :
-     LET R2 == s.reg
+     LET R1 == s.reg
+         \* --- C08: names after conflict resolution are read off the wire: an announcement under one of the
+         \* candidate names of a registration (x (2), h-2, ..) moves the registration to that name
+         srvOf(i) == LET js == {j \in 1..Len(Pk(i).m.an) : Pk(i).m.an[j].ty = "SRV"} IN Pk(i).m.an[CHOOSE j \in js : TRUE]
+         IdxIn(sq, x) == {j \in 1..Len(sq) : sq[j] = x}
+         moveInst(R, i) ==
+            LET k == SrvKeyOf(Pk(i).m.an)
+                owners == {o \in Dom(R) : R[o].orig \in Dom(cand) /\ o # k /\ IdxIn(cand[R[o].orig].instk, k) # {} /\ k \notin Dom(R)}
+            IN IF owners = {} THEN R
+               ELSE LET o == CHOOSE x \in owners : TRUE
+                        j == CHOOSE x \in IdxIn(cand[R[o].orig].instk, k) : TRUE
+                    IN Put(Del(R, {o}), k, [R[o] EXCEPT !.fn = cand[R[o].orig].inst[j], !.fnk = k])
+         moveHost(R, i) ==
+            LET k == SrvKeyOf(Pk(i).m.an) IN
+            IF k \notin Dom(R) THEN R
+            ELSE LET g == R[k]  tk == srvOf(i).t.k IN
+                 IF tk # g.hostk /\ g.orig \in Dom(cand) /\ IdxIn(cand[g.orig].hostk, tk) # {}
+                 THEN LET j == CHOOSE x \in IdxIn(cand[g.orig].hostk, tk) : TRUE IN
+                      Put(R, k, [g EXCEPT !.host = cand[g.orig].host[j], !.hostk = tk, !.srvrk = g.srvpre \o cand[g.orig].host[j]])
+                 ELSE R
+         RECURSIVE Adopt(_, _)
+         Adopt(R, is) == IF is = {} THEN R ELSE LET i == CHOOSE x \in is : TRUE IN Adopt(moveHost(moveInst(R, i), i), is \ {i})
+         R2 == Adopt(R1, Annc)
+         renamedNow == {k \in Dom(R2) : k \notin Dom(R1) \/ R2[k].hostk # R1[k].hostk}
+         ncNow == {Ev.events[j].newk : j \in {x \in 1..Len(Ev.events) : Ev.events[x].k = "NameChange"}}
+         vRename == UNION {V("C08.namechange-event", (k \in Dom(R1) \/ k \in ncseen \cup ncNow)
+                                                    /\ (k \in Dom(R1) /\ R2[k].hostk # R1[k].hostk => R2[k].hostk \in ncseen \cup ncNow),
+                              <<"renamed without a NameChange event", k, R2[k].hostk>>) : k \in renamedNow}
+         \* names a conflicting response claimed before we announced them must not be taken
+         conflictNames == UNION {
+              LET d == inbox[j] IN
+              IF d.ok /\ d.m.qr THEN
+                 {d.m.an[x].n.k : x \in {y \in 1..Len(d.m.an) :
+                      \E k \in Dom(R1) : /\ <<k, d["if"]>> \notin Dom(s.ann)
+                                          /\ \/ (d.m.an[y].n.k = k /\ d.m.an[y].ty = "SRV" /\ d.m.an[y].rk # R1[k].srvrk)
+                                             \/ (d.m.an[y].n.k = k /\ d.m.an[y].ty = "TXT" /\ d.m.an[y].rk # R1[k].txtx)
+                                             \/ (d.m.an[y].n.k = R1[k].hostk /\ d.m.an[y].ty \in {"A", "AAAA"}
+                                                 /\ d.m.an[y].rk \notin {a.ip : a \in EffAddrs(R1[k], ifs)}
+                                                 /\ ~\E k2 \in Dom(R1) : R1[k2].hostk = R1[k].hostk /\ <<k2, d["if"]>> \in Dom(s.ann))}}
+              ELSE {} : j \in 1..Len(inbox)}
+         vNoTake == UNION {V("C08.notake", SrvKeyOf(Pk(i).m.an) \notin lost /\ srvOf(i).t.k \notin lost,
+                              <<IF SrvKeyOf(Pk(i).m.an) \in lost /\ \E k \in Dom(R1) : R1[k].dotted /\ k = SrvKeyOf(Pk(i).m.an)
+                                THEN "conflict for an instance name with a dot inside a label is not detected (wire names are compared unescaped with escaped registered names)"
+                                ELSE "announced under a name that a conflicting response had claimed during probing", SrvKeyOf(Pk(i).m.an), srvOf(i).t.k>>) : i \in Annc}
+         \* competing probes delivered while we probe the same name
+         competNow == UNION {
+              LET d == inbox[j] IN
+              IF d.ok /\ ~d.m.qr /\ Len(d.m.ns) > 0
+              THEN {d.m.q[x].n.k : x \in 1..Len(d.m.q)} \cap (Dom(R1) \cup {R1[k].hostk : k \in Dom(R1)})
+              ELSE {} : j \in 1..Len(inbox)}
          \* probes seen in this iteration
          probeNames(i) == {Pk(i).m.q[j].n.k : j \in {x \in 1..Len(Pk(i).m.q) : Pk(i).m.q[x].ty = "ANY"}}
-         probed == UNION {{<<k, Pk(i)["if"]>> : k \in probeNames(i) \cap Dom(R2)} : i \in Probe}
+         \* names the registrations go by or may move to after a conflict
+         candKeys == UNION {Range(cand[o].instk) : o \in Dom(cand)}
+         probed == UNION {{<<k, Pk(i)["if"]>> : k \in probeNames(i) \cap (Dom(R2) \cup candKeys)} : i \in Probe}
+         \* after a competing probe, a pause of a second or more means the daemon deferred: the probing starts over
+         backoff(x) == /\ SeqOf(s.probes, x) # <<>> /\ x[1] \in Dom(compet)
+                       /\ compet[x[1]] >= Last(SeqOf(s.probes, x)) /\ T - Last(SeqOf(s.probes, x)) >= 1000
          P2 == [x \in Dom(s.probes) \cup probed |->
-                  IF x \in probed /\ (SeqOf(s.probes, x) = <<>> \/ Last(SeqOf(s.probes, x)) # T)
+                  IF x \in probed /\ backoff(x) THEN <<T>>
+                  ELSE IF x \in probed /\ (SeqOf(s.probes, x) = <<>> \/ Last(SeqOf(s.probes, x)) # T)
                   THEN Append(SeqOf(s.probes, x), T) ELSE SeqOf(s.probes, x)]
          vProbe == UNION {
               (IF SeqOf(s.probes, x) # <<>> /\ Last(SeqOf(s.probes, x)) < T
@@ -206,10 +273,11 @@ Iter ==
                      \* a name probed for the first time proposes SRV and TXT; a re-registration
                      \* probes only what changed (at least one record of the name)
                      first == <<k, Pk(i)["if"]>> \notin Dom(s.ann) /\ SeqOf(s.probes, <<k, Pk(i)["if"]>>) = <<>>
-                 IN V("C07.content", /\ (first => Ident(RecSRV(g)) \in ns /\ Ident(RecTXT(g)) \in ns)
-                                     /\ \E r \in ns : r.k = k
-                                     /\ \A r \in {x \in ns : x.k = k} : r \in {Ident(RecSRV(g)), Ident(RecTXT(g))}
-                                     /\ (g.hostk \in probeNames(i) => \E r \in ns : r.k = g.hostk /\ r.ty \in {"A", "AAAA"}),
+                     tys == {r.ty : r \in {x \in ns : x.k = k}}
+                 IN V("C07.content", /\ ((first /\ k \notin noisy \cup NoisyIn /\ g.orig = g.fnl) => tys = {"SRV", "TXT"})
+                                     /\ (k \notin noisy \cup NoisyIn => tys # {}) /\ tys \subseteq {"SRV", "TXT"}
+                                     /\ ((g.hostk \in probeNames(i) /\ g.hostk \notin noisy \cup NoisyIn /\ k \notin noisy \cup NoisyIn)
+                                           => \E r \in ns : r.k = g.hostk /\ r.ty \in {"A", "AAAA"}),
                       <<k, ns>>)
                  : k \in probeNames(i) \cap Dom(R2)} : i \in Probe}
          \* announcements
@@ -270,7 +338,10 @@ Iter ==
          vWake == IF due = {} \/ ~Ev.alive \/ s.down THEN {}
                   ELSE V("C12.cover", Ev.wake >= 0 /\ Ev.wake <= (CHOOSE d \in due : \A e \in due : d <= e),
                          <<"requested wake-up later than pending time-driven work", Ev.wake, CHOOSE d \in due : \A e \in due : d <= e, T>>)
-     IN /\ viol' = viol \cup SpinV \cup s.v \cup vProbe \cup vAnn \cup vBye \cup vOwed \cup vQ \cup vQuiet \cup vWake
+     IN /\ viol' = viol \cup SpinV \cup s.v \cup vProbe \cup vAnn \cup vBye \cup vOwed \cup vQ \cup vQuiet \cup vWake \cup vRename \cup vNoTake
+        /\ lost' = lost \cup conflictNames
+        /\ ncseen' = ncseen \cup ncNow
+        /\ compet' = [x \in Dom(compet) \cup competNow |-> IF x \in competNow THEN T ELSE compet[x]]
         /\ reg' = R2 /\ ann' = A2 /\ probes' = P2 /\ owed' = O2 /\ ipint' = s.ipint
         /\ hits' = hits \cup (IF Probe # {} THEN {"C07.probe"} ELSE {})
                         \cup (IF Annc # {} THEN {"C07.announce"} ELSE {})
@@ -280,32 +351,36 @@ Iter ==
                         \cup (IF Cardinality(Queries) = 1 THEN HitsQuery(inbox[CHOOSE j \in Queries : TRUE]) ELSE {})
   /\ noisy' = noisy \cup NoisyIn
   /\ inbox' = <<>> /\ cmds' = <<>>
-  /\ UNCHANGED <<scen, myhost, ifs>>
+  /\ UNCHANGED <<scen, myhost, ifs, cand>>
 
 Reset == /\ Ev.e = "reset"
          /\ scen' = Ev.scen.id /\ myhost' = 0 /\ ifs' = <<>> /\ reg' = <<>> /\ ann' = <<>> /\ probes' = <<>>
          /\ noisy' = {} /\ owed' = {} /\ inbox' = <<>> /\ cmds' = <<>> /\ ipint' = 5000
+         /\ cand' = <<>> /\ lost' = {} /\ ncseen' = {} /\ compet' = <<>>
          /\ UNCHANGED <<viol, hits, streak>>
 Spawn == /\ Ev.e = "spawn"
          /\ myhost' = Ev.host + 1
          /\ ifs' = Rec[CHOOSE j \in 1..l : Rec[j].e = "reset" /\ \A m \in (j+1)..l : Rec[m].e # "reset"].hosts[Ev.host + 1]
-         /\ UNCHANGED <<scen, reg, ann, probes, noisy, owed, inbox, cmds, ipint, viol, hits, streak>>
+         /\ UNCHANGED <<scen, reg, ann, probes, noisy, owed, inbox, cmds, ipint, viol, hits, streak, cand, lost, ncseen, compet>>
 IfsEv == /\ Ev.e = "ifs"
          /\ ifs' = IF Ev.host + 1 = myhost THEN Ev.ifs ELSE ifs
-         /\ UNCHANGED <<scen, myhost, reg, ann, probes, noisy, owed, inbox, cmds, ipint, viol, hits, streak>>
+         /\ UNCHANGED <<scen, myhost, reg, ann, probes, noisy, owed, inbox, cmds, ipint, viol, hits, streak, cand, lost, ncseen, compet>>
 Call == /\ Ev.e = "call"
         /\ cmds' = Append(cmds, Ev)
-        /\ UNCHANGED <<scen, myhost, ifs, reg, ann, probes, noisy, owed, inbox, ipint, viol, hits, streak>>
+        /\ UNCHANGED <<scen, myhost, ifs, reg, ann, probes, noisy, owed, inbox, ipint, viol, hits, streak, cand, lost, ncseen, compet>>
 Deliver == /\ Ev.e = "deliver"
            /\ inbox' = Append(inbox, Ev)
-           /\ UNCHANGED <<scen, myhost, ifs, reg, ann, probes, noisy, owed, cmds, ipint, viol, hits, streak>>
-Skip == /\ Ev.e \in {"adv", "dead", "note"}
+           /\ UNCHANGED <<scen, myhost, ifs, reg, ann, probes, noisy, owed, cmds, ipint, viol, hits, streak, cand, lost, ncseen, compet>>
+Names == /\ Ev.e = "names"
+         /\ cand' = Put(cand, Ev.fnk, [inst |-> Ev.inst, instk |-> Ev.instk, host |-> Ev.host, hostk |-> Ev.hostk])
+         /\ UNCHANGED <<streak, scen, myhost, ifs, reg, ann, probes, noisy, owed, inbox, cmds, ipint, lost, ncseen, compet, viol, hits>>
+Skip == /\ Ev.e \in {"adv", "dead", "note", "end"}
         /\ viol' = viol
-        /\ UNCHANGED <<scen, myhost, ifs, reg, ann, probes, noisy, owed, inbox, cmds, ipint, hits, streak>>
+        /\ UNCHANGED <<scen, myhost, ifs, reg, ann, probes, noisy, owed, inbox, cmds, ipint, hits, streak, cand, lost, ncseen, compet>>
 
 Init == /\ l = 1 /\ scen = 0 /\ myhost = 0 /\ ifs = <<>> /\ reg = <<>> /\ ann = <<>> /\ probes = <<>>
-        /\ noisy = {} /\ owed = {} /\ inbox = <<>> /\ cmds = <<>> /\ ipint = 5000 /\ viol = {} /\ hits = {} /\ streak = 0
-Next == l <= Len(Rec) /\ l' = l + 1 /\ (Reset \/ Spawn \/ IfsEv \/ Call \/ Deliver \/ Skip \/ Iter)
+        /\ noisy = {} /\ owed = {} /\ inbox = <<>> /\ cmds = <<>> /\ ipint = 5000 /\ cand = <<>> /\ lost = {} /\ ncseen = {} /\ compet = <<>> /\ viol = {} /\ hits = {} /\ streak = 0
+Next == l <= Len(Rec) /\ l' = l + 1 /\ (Reset \/ Spawn \/ IfsEv \/ Call \/ Deliver \/ Names \/ Skip \/ Iter)
 Spec == Init /\ [][Next]_vars
 
 Track == TLCSet(1, viol) /\ TLCSet(2, hits)
